@@ -7,6 +7,7 @@ import (
 	"strconv"
 	"strings"
 
+	"verif/internal/ref"
 	"verif/internal/run"
 
 	"github.com/uhn/ggql/pkg/ggql"
@@ -177,4 +178,75 @@ func c04MethodParams(c *run.Ctx) int {
 		}
 	}
 	return nontriv
+}
+
+// c04SharedNestedVars: the caller keeps ONE variables map whose values are lists and objects and hands it to several
+// requests that declare the same variable with different types ([Float], [Float64], [Int64], an input object). Every
+// request gets the values the caller wrote: its answer is the one the same request gets with a fresh copy of the
+// variables on a fresh root, and the caller's map (values and Go types, at any depth) is what it was before the call.
+type c04EchoRoot struct{}
+
+func (r *c04EchoRoot) Resolve(field *ggql.Field, args map[string]interface{}) (interface{}, error) {
+	if field.Name == "query" {
+		return r, nil
+	}
+	return ref.Render(ref.Canon(args)), nil // what the resolver received, exactly
+}
+
+func c04SharedNestedVars(c *run.Ctx) int {
+	const sdl = `type Query { fl(l: [Float]): String fd(l: [Float64]): String fi(l: [Int64]): String fll(l: [[Float]]): String fo(o: In): String fos(o: [In]): String }
+input In { x: Float y: [Float64] z: Int = 3 w: [Float] }
+`
+	mk := func() map[string]interface{} {
+		return map[string]interface{}{
+			"l":  []interface{}{0.1, 2.5, 16777217.0, 3},
+			"ll": []interface{}{[]interface{}{0.1}, []interface{}{0.7, 1}},
+			"o":  map[string]interface{}{"x": 0.1, "y": []interface{}{0.1, 0.3}, "w": []interface{}{0.1}},
+			"os": []interface{}{map[string]interface{}{"y": []interface{}{0.1}}, map[string]interface{}{"x": 0.3, "w": []interface{}{0.7}}},
+		}
+	}
+	steps := []string{
+		`query($l: [Float]){ fl(l: $l) }`, `query($l: [Float64]){ fd(l: $l) }`, `query($l: [Int64]){ fi(l: $l) }`,
+		`query($ll: [[Float]]){ fll(l: $ll) }`, `query($o: In){ fo(o: $o) }`, `query($os: [In]){ fos(o: $os) }`,
+		`query($o: In, $l: [Float64]){ fo(o: $o) fd(l: $l) }`, `query($l: [Float] = [0.5]){ fl(l: $l) }`,
+	}
+	done := 0
+	for round := 0; round < c.N(40, 600); round++ {
+		r := c.Rand(1400000 + round)
+		root := ggql.NewRoot(&c04EchoRoot{})
+		if err := root.ParseString(sdl); err != nil {
+			c.Violation("c04-schema-rejected", map[string]interface{}{"error": err.Error()})
+			return done
+		}
+		shared := mk()
+		before := fmt.Sprintf("%#v", shared)
+		var hist []string
+		for k := 0; k < 2+r.Intn(5); k++ {
+			text := steps[r.Intn(len(steps))]
+			var res, exp map[string]interface{}
+			pv, _ := run.Protect(func() { res = root.ResolveString(text, "", shared) })
+			fresh := ggql.NewRoot(&c04EchoRoot{})
+			_ = fresh.ParseString(sdl)
+			pe, _ := run.Protect(func() { exp = fresh.ResolveString(text, "", mk()) })
+			hist = append(hist, text)
+			done++
+			c.Count("requests_sharing_nested_variable_values", 1)
+			diag := ""
+			switch {
+			case pv != nil || pe != nil:
+				diag = fmt.Sprintf("panic: %v / %v", pv, pe)
+			case ref.Render(ref.Canon(res)) != ref.Render(ref.Canon(exp)):
+				diag = "the answer differs from the one the request gets with a fresh copy of the same variables"
+			case fmt.Sprintf("%#v", shared) != before:
+				diag = "the caller's variables were changed by the call"
+			}
+			if diag != "" {
+				c.Violation("c04-shared-nested-variables", map[string]interface{}{"sdl": sdl, "history": hist, "diag": diag, "response": ref.Render(ref.Canon(res)), "with_fresh_variables": ref.Render(ref.Canon(exp)),
+					"variables_before": before, "variables_after": fmt.Sprintf("%#v", shared)})
+				break
+			}
+		}
+		c.Eval("shared-nested-vars|"+strings.Join(hist, "|"), true)
+	}
+	return done
 }
